@@ -18,7 +18,7 @@ ASSUMPTIONS = ['oracle: the returned rotation maps both unit references onto bot
                'reference vectors and directions per estimator are those in mc/ref/filters.py (documentation of each class); OLEQ start vector: '
                'np.random.random is an owned seam returning each vector of a fixed menu',
                'OLEQ: tolerance max(1e-6, 1e-7 rho/(1-rho)) with rho the documented contraction ratio of its fixed-point iteration (stopping test 1e-8 on successive iterates)', 'accelerometer-only variants are judged on the gravity direction only']
-REQUIRED_CLASSES = ['S', 'Gp', 'int-samples', 'tilt-only', 'pose:level', 'pose:inverted', 'pose:vertical', 'pose:half-turn']
+REQUIRED_CLASSES = ['S', 'Gp', 'int-samples', 'weights-option', 'tilt-only', 'pose:level', 'pose:inverted', 'pose:vertical', 'pose:half-turn']
 DIPS_Q = [-45.0, 0.0, 60.0]
 DIPS_T = [-80.0, -45.0, -10.0, 0.0, 1e-9, 10.0, 45.0, 60.0, 80.0]
 SCAL_Q = [(1.0, 1.0), (9.81, 45.0)]
@@ -204,7 +204,8 @@ def job_est(ctx, ename, k, lo, hi):
                 if abs(float(g @ m)) > 0.9999:
                     continue
                 sa, sm = scal[-1]
-                for order_name, seq in (('forward', atts), ('reversed', atts[::-1])):
+                for order_name, seq in [('forward', atts), ('reversed', atts[::-1])] + [(f'first {nn} rows', atts[:nn]) for nn in (1, 2, 3, 4, 5) if len(atts) > nn] + \
+                                       [(f'last {nn} rows', atts[-nn:]) for nn in (2, 3, 4) if len(atts) > nn]:
                     meas = [est.measurements(rq.R(q), dip, frame, sa, sm) for _, q in seq]
                     Acc = np.array([x[0] for x in meas]); Mag = np.array([x[1] for x in meas])
                     if est.seeded:
@@ -280,6 +281,68 @@ def job_est(ctx, ename, k, lo, hi):
         ctx.sample({'estimator': ename, 'attitude': lab, 'q': q.tolist(), 'acc': a.tolist(), 'mag': mg.tolist(), 'dip': dips[0], 'frame': est.frames[0]})
 
 
+WEIGHTS = [(1.0, 1.0), (2.0, 1.0), (0.3, 0.2), (0.25, 0.75), (5.0, 0.1), (0.5, 0.5)]
+
+
+def job_weights(ctx, k):
+    """The `weights` option of the Wahba-type estimators (Davenport, QUEST, FLAE with each method, OLEQ): with exact, consistent measurements
+    every pair of positive weights, normalised to unit sum or not, given as ndarray or list, recovers the attitude (batch, one sample, estimate())."""
+    from ahrs import filters as F
+    reg = {e.name: e for e in rf.registry()}
+    atts = [a for a in attitudes('Gp', k)][::9]
+    real_random = np.random.random
+    makers = [('Davenport', 'Davenport', lambda a, m, dip, frame, w: F.Davenport(a, m, magnetic_dip=float(dip), weights=w).Q, lambda dip, frame, w: F.Davenport(magnetic_dip=float(dip), weights=w)),
+              ('QUEST', 'QUEST', lambda a, m, dip, frame, w: F.QUEST(a, m, magnetic_dip=float(dip), weights=w).Q, lambda dip, frame, w: F.QUEST(magnetic_dip=float(dip), weights=w)),
+              ('OLEQ', 'OLEQ', lambda a, m, dip, frame, w: F.OLEQ(a, m, magnetic_ref=float(dip), frame=frame, weights=w).Q, lambda dip, frame, w: F.OLEQ(magnetic_ref=float(dip), frame=frame, weights=w))]
+    for meth in ('eig', 'symbolic', 'newton'):
+        makers.append((f'FLAE[{meth}]', f'FLAE[{meth}]', lambda a, m, dip, frame, w, meth=meth: F.FLAE(a, m, method=meth, magnetic_dip=float(dip), weights=w).Q,
+                       lambda dip, frame, w, meth=meth: (F.FLAE(magnetic_dip=float(dip), weights=w), meth)))
+    for name, ename, build, mk_est in makers:
+        est = reg[ename]
+        for frame in est.frames[:1]:
+            for dip in (-45.0, 60.0):
+                g, m = est.refs(dip, frame)
+                meas = [est.measurements(rq.R(q), dip, frame, 9.81, 45.0) for _, q in atts]
+                Acc = np.array([x[0] for x in meas]); Mag = np.array([x[1] for x in meas])
+                for wi, w in enumerate(WEIGHTS):
+                    for cn, wc in (('ndarray', lambda: np.array(w)), ('list', lambda: list(w))):
+                        key0 = f'est={name} frame={frame} dip={dip:g} weights={w} as {cn}'
+                        tol = 1e-5 if est.seeded else 1e-6
+                        if est.seeded:
+                            np.random.random = lambda n=4: OLEQ_STARTS[0].copy()
+                        try:
+                            try:
+                                out = build(Acc.copy(), Mag.copy(), dip, frame, wc())
+                            except (TypeError, ValueError, AttributeError) as ex:
+                                if cn == 'list':
+                                    ctx.outcome(('weights-container-refused', name)); continue
+                                ctx.evals += 1
+                                ctx.fail(f'{name}(weights=): batch raises', key0, f'{type(ex).__name__}: {ex}'[:160], 'N attitudes'); continue
+                            out = list(out) if len(out) == len(atts) else [None] * len(atts)
+                            for ri_, ((lab, q), o) in enumerate(zip(atts, out)):
+                                _judge(ctx, est, o if o is not None else np.zeros(1), g, m, meas[ri_][0], meas[ri_][1], 9.81, 45.0, tol, f'{name}(weights=).batch: row maps references onto measurements', f'{key0} att={lab}')
+                            for ri_ in range(0, len(atts), 4):
+                                o1 = build(meas[ri_][0].copy(), meas[ri_][1].copy(), dip, frame, wc())
+                                _judge(ctx, est, o1, g, m, meas[ri_][0], meas[ri_][1], 9.81, 45.0, tol, f'{name}(weights=) one sample: maps references onto measurements', f'{key0} att={atts[ri_][0]}')
+                                obj = mk_est(dip, frame, wc())
+                                o2 = obj[0].estimate(meas[ri_][0].copy(), meas[ri_][1].copy(), method=obj[1]) if isinstance(obj, tuple) else obj.estimate(meas[ri_][0].copy(), meas[ri_][1].copy())
+                                _judge(ctx, est, o2, g, m, meas[ri_][0], meas[ri_][1], 9.81, 45.0, tol, f'{name}(weights=).estimate: maps references onto measurements', f'{key0} att={atts[ri_][0]}')
+                        except AttributeError as ex:
+                            if cn == 'list':
+                                ctx.outcome(('weights-container-refused', name))
+                            else:
+                                ctx.evals += 1
+                                ctx.fail(f'{name}(weights=): raises', key0, f'{type(ex).__name__}: {ex}'[:160], 'attitudes')
+                        except Exception as ex:
+                            ctx.evals += 1
+                            ctx.fail(f'{name}(weights=): raises', key0, f'{type(ex).__name__}: {ex}'[:160], 'attitudes')
+                        finally:
+                            np.random.random = real_random
+                        ctx.seen(('weights', name, frame, dip, wi, cn))
+                        ctx.cls('weights-option')
+    ctx.sample({'weights': WEIGHTS})
+
+
 def run(ctx):
     A.selftest()
     k = A.seed_k(ctx.seed)
@@ -291,6 +354,8 @@ def run(ctx):
             parts = 6 if e.name in ('OLEQ', 'FQA', 'QUEST') or ctx.thorough else 3
             for lo, hi in core.chunks(n, parts):
                 jobs.append(('job_est', (e.name, kk, lo, hi)))
+    for kk in ks:
+        jobs.append(('job_weights', (kk,)))
     core.run_jobs(ctx, __name__, jobs)
     ctx.notes['estimator_entries'] = [e.name for e in rf.registry()]
     ctx.notes['class_sizes'] = {c: len(attitudes(c, k)) for c in ('S', 'Gp')}
